@@ -255,6 +255,7 @@ def run(ctx):
     check_flush_siblings(ctx, F)
     c08.check_encoder_guard(ctx, F)
     check_mirror(ctx, F)
+    c18.check_exhaustion_tolerance(ctx, F)   # "after the last symbol the decoder reports that it may be exhausted"
     if ctx.tier == 'thorough':
         from vlib import witness
         witness.run(ctx, 'C02')
